@@ -29,6 +29,7 @@ type Check struct {
 	QuickBudget    time.Duration
 	ThoroughBudget time.Duration
 	Env            []string // extra environment for workers
+	Overlay        bool     // workers run in the overlay-instrumented scheduler build of the harness
 	Run            func(x *X)
 	// Extra is run by the parent after the workers (e.g. the free-running -race pass);
 	// it may add keys to coverage and return violations.
@@ -50,6 +51,11 @@ func main() {
 		os.Exit(cmdWorker(os.Args[2:]))
 	case "replay":
 		os.Exit(cmdReplay(os.Args[2:]))
+	case "describe":
+		if ck := checks[os.Args[2]]; ck != nil {
+			b, _ := json.Marshal(map[string]interface{}{"Rule": ck.Rule, "Technique": ck.Technique, "Assumptions": ck.Assumptions})
+			os.Stdout.Write(b)
+		}
 	case "list":
 		ids := []string{}
 		for id := range checks {
@@ -168,6 +174,25 @@ func cmdCheck(args []string) int {
 	os.RemoveAll(outDir)
 	os.MkdirAll(outDir, 0o755)
 	exe, _ := os.Executable()
+	var ovInfo *OverlayInfo
+	if ck.Overlay {
+		var err error
+		exe, ovInfo, err = buildOverlayBinary(work, false)
+		if err != nil {
+			fmt.Fprintln(os.Stderr, err)
+			return 2
+		}
+		// the overlay build carries the real metadata (rule, technique, assumptions) of the check
+		if out, err := exec.Command(exe, "describe", id).Output(); err == nil {
+			var d struct {
+				Rule, Technique string
+				Assumptions     []string
+			}
+			if json.Unmarshal(out, &d) == nil {
+				ck.Rule, ck.Technique, ck.Assumptions = d.Rule, d.Technique, d.Assumptions
+			}
+		}
+	}
 
 	results := make([]*WorkerResult, n)
 	crashes := make([]string, n)
@@ -291,6 +316,10 @@ func cmdCheck(args []string) int {
 	sort.Strings(caps)
 
 	cov := map[string]interface{}{}
+	if ovInfo != nil {
+		cov["instrumentation"] = map[string]interface{}{"files_rewritten": ovInfo.Files, "sync_imports_rewritten": ovInfo.SyncRewrites, "access_hooks_inserted": ovInfo.Hooks,
+			"package_level_vars": ovInfo.Vars, "mutable_package_level_vars": ovInfo.Mutable, "registry_reset_helper": ovInfo.ResetHelper}
+	}
 	if ck.Extra != nil && len(violations) == 0 {
 		violations = append(violations, ck.Extra(*tier, cov)...)
 	}
@@ -425,6 +454,25 @@ func cmdReplay(args []string) int {
 				}
 			}
 		}
+	}
+	if ck.Overlay && !builtWithOverlay {
+		work := filepath.Join(verifRoot, ".work", fmt.Sprintf("replay-%d", os.Getpid()))
+		defer os.RemoveAll(work)
+		exe, _, err := buildOverlayBinary(work, false)
+		if err != nil {
+			fmt.Fprintln(os.Stderr, err)
+			return 2
+		}
+		cmd := exec.Command(exe, os.Args[1:]...)
+		cmd.Env = workerEnv(ck.Env)
+		cmd.Stdout, cmd.Stderr = os.Stdout, os.Stderr
+		if err := cmd.Run(); err != nil {
+			if ee, ok := err.(*exec.ExitError); ok {
+				return ee.ExitCode()
+			}
+			return 2
+		}
+		return 0
 	}
 	x := newX(v.Property, v.Tier, 0, 1)
 	x.replay = &v
